@@ -111,6 +111,26 @@ Theorem struct_decoder_is_fieldwise : forall sch unm d bs e st1 st2,
 Proof. exact unmarshal_struct_fieldwise. Qed.
 Print Assumptions struct_decoder_is_fieldwise.
 
+(* --- KNOWN FINDINGS (known_findings.d/C04.json): two classes of values in the property's domain
+       ("second-or-finer times", "any combination of empty/non-empty optional fields") do not come
+       back equal on the real code, by design of the formats; they are outside wfb and the
+       round-trip statement is refuted for them on the current schema ---
+
+     Full statement (false): forall T v, shaped T v -> exists e, encode1 T v = Ok e /\ decode T e = Ok v. *)
+Theorem xml_roundtrip_note_date_refuted :
+  wfb gen_schema "Note" w_date_subsecond = false /\
+  exists v', comes_back "Note" w_date_subsecond = Ok v' /\ v' <> w_date_subsecond
+             /\ v' = mk gen_schema "Note" [("ID", VInt 2); ("DateCreated", VStruct [VTime 1600000000000000000])].
+Proof. exact note_date_subsecond_refuted. Qed.
+Print Assumptions xml_roundtrip_note_date_refuted.
+
+Theorem xml_roundtrip_empty_discussion_refuted :
+  wfb gen_schema "Changeset" w_empty_discussion = false /\
+  exists v', comes_back "Changeset" w_empty_discussion = Ok v' /\ v' <> w_empty_discussion
+             /\ v' = mk gen_schema "Changeset" [("ID", VInt 2)].
+Proof. exact empty_discussion_refuted. Qed.
+Print Assumptions xml_roundtrip_empty_discussion_refuted.
+
 (* --- non-vacuity --- *)
 Definition ex_node : value :=
   Eval vm_compute in
@@ -159,6 +179,11 @@ Theorem marshal_decodable_by_scanner_Change : forall v,
             /\ scan_el gen_schema e = (change_objects (d_of "Change") (d_of "OSM") v, None).
 Proof. exact scanner_reads_Change. Qed.
 Print Assumptions marshal_decodable_by_scanner_Change.
+
+Example ex_containers_nonvacuous :
+  wfb gen_schema "Diff" w_diff = true /\ comes_back "Diff" w_diff = Ok w_diff /\
+  wfb gen_schema "OSM" w_osm_full = true /\ comes_back "OSM" w_osm_full = Ok w_osm_full.
+Proof. exact containers_nonvacuous. Qed.
 
 Theorem marshal_decodable_by_scanner_Diff : forall v,
   wfb gen_schema "Diff" v = true ->
